@@ -148,7 +148,7 @@ fn main() {
         run(&mut ctx, &ev.ty, ev.n, ev.i(0));
         std::process::exit(vmon::ctx::report_replay(&ctx));
     }
-    let rounds = if ctx.thorough() { 24 } else { 1 };
+    let rounds = if ctx.thorough() { 60 } else { 1 };
     for _ in 0..rounds {
         for n in 0..=MAX_N + 2 {
             for ty in ["Lut", "LutN"] {
